@@ -21,31 +21,31 @@ type refTables struct {
 	u2b                  map[rune]uint16 // code point -> Big5 code (last row wins)
 	b2uRows, u2bRows     int
 	b2uWF, u2bWF, isASCII bool
+	hdrB, hdrU            bool // the first line of the file is NOT a data row (the loader drops line 1 whatever it is)
 }
 
-func parseRef(path string) (rows [][2]uint16, ascii bool, err error) {
+func parseRef(path string) (rows [][2]uint16, ascii, firstIsRow bool, err error) {
 	f, err := os.Open(path)
 	if err != nil {
-		return nil, false, err
+		return nil, false, false, err
 	}
 	defer f.Close()
 	return parseRefFrom(f)
 }
 
-func parseRefFrom(f io.Reader) (rows [][2]uint16, ascii bool, err error) {
+// parseRefFrom reads a table the way a reader of the DATA does: every line of the shape `0xHHHH 0xHHHH` is a row,
+// wherever it stands; a header or comment is recognised by its content, not by its position.
+func parseRefFrom(f io.Reader) (rows [][2]uint16, ascii, firstIsRow bool, err error) {
 	ascii = true
 	sc := bufio.NewScanner(f)
-	first := true
+	n := 0
 	for sc.Scan() {
 		line := sc.Bytes()
+		n++
 		for _, c := range line {
 			if c >= 0x80 {
 				ascii = false
 			}
-		}
-		if first { // header
-			first = false
-			continue
 		}
 		fs := strings.Split(strings.TrimRight(string(line), "\r"), " ")
 		if len(fs) != 2 || !strings.HasPrefix(fs[0], "0x") || !strings.HasPrefix(fs[1], "0x") {
@@ -57,27 +57,34 @@ func parseRefFrom(f io.Reader) (rows [][2]uint16, ascii bool, err error) {
 			continue
 		}
 		rows = append(rows, [2]uint16{uint16(a), uint16(b)})
+		if n == 1 {
+			firstIsRow = true
+		}
 	}
-	return rows, ascii, sc.Err()
+	return rows, ascii, firstIsRow, sc.Err()
 }
 
 func loadRef(pb, pu string) (*refTables, error) {
-	rb, a1, err := parseRef(pb)
+	rb, a1, f1, err := parseRef(pb)
 	if err != nil {
 		return nil, err
 	}
-	ru, a2, err := parseRef(pu)
+	ru, a2, f2, err := parseRef(pu)
 	if err != nil {
 		return nil, err
 	}
-	return buildRef(rb, ru, a1 && a2), nil
+	t := buildRef(rb, ru, a1 && a2)
+	t.hdrB, t.hdrU = !f1, !f2
+	return t, nil
 }
 
 // refFromContent: the reference tables of two table files given by content.
 func refFromContent(cb, cu []byte) *refTables {
-	rb, a1, _ := parseRefFrom(bytes.NewReader(cb))
-	ru, a2, _ := parseRefFrom(bytes.NewReader(cu))
-	return buildRef(rb, ru, a1 && a2)
+	rb, a1, f1, _ := parseRefFrom(bytes.NewReader(cb))
+	ru, a2, f2, _ := parseRefFrom(bytes.NewReader(cu))
+	t := buildRef(rb, ru, a1 && a2)
+	t.hdrB, t.hdrU = !f1, !f2
+	return t
 }
 
 func buildRef(rb, ru [][2]uint16, ascii bool) *refTables {
@@ -102,7 +109,7 @@ func buildRef(rb, ru [][2]uint16, ascii bool) *refTables {
 // wfLine: the answer to the `wf` op, computed from the independent parse (the Lean driver computes
 // the same line with the modelled parser and the decidable WF predicate of the theorems).
 func (t *refTables) wfLine() string {
-	return fmt.Sprintf("wf b2u=%d/%d/%v u2b=%d/%d/%v ascii=%v", t.b2uRows, len(t.b2u), t.b2uWF, t.u2bRows, len(t.u2b), t.u2bWF, t.isASCII)
+	return fmt.Sprintf("wf b2u=%d/%d/%v u2b=%d/%d/%v ascii=%v hdr=%v/%v", t.b2uRows, len(t.b2u), t.b2uWF, t.u2bRows, len(t.u2b), t.u2bWF, t.isASCII, t.hdrB, t.hdrU)
 }
 
 // encGen: the (generalised: surrogates too) UTF-8 encoding of a BMP code point.
@@ -200,6 +207,10 @@ func judge(i int, line, out string) {
 		judgeHist(i, line, out)
 		return
 	}
+	if ws := strings.Fields(line); ws[0] == "start" {
+		judgeStart(i, ws, out)
+		return
+	}
 	judgeT(ref, i, line, out)
 }
 
@@ -235,6 +246,9 @@ func judgeT(t *refTables, i int, line, out string) {
 	}
 	switch op {
 	case "wf":
+		if !t.hdrB || !t.hdrU {
+			run.Fail(i, "table:first-line-is-a-row", "a table file starts with a data row, which the loader drops unconditionally (lines[1:]): "+out)
+		}
 		if !t.b2uWF || !t.u2bWF || !t.isASCII {
 			run.Fail(i, "table:not-wf", "a table file has a row outside the well-formedness the guarantees are stated under: "+out)
 		}
